@@ -9,7 +9,18 @@ from breezy.filters import eol
 tier = os.environ.get("VERIF_TIER", "quick")
 L = 8 if tier == "quick" else 10
 ALPH = [b"\r", b"\n", b"\x00", b"a"]
-viol, n, nontrivial, samples, n_f8 = [], 0, 0, [], 0
+viol, n, nontrivial, samples, n_f8, n_chunk = [], 0, 0, [], 0, 0
+LC = 6 if tier == "quick" else 7
+
+
+def chunkings(k):
+    """every way to cut a string of length k into two or three chunks (empty chunks included)"""
+    for a in range(0, k + 1):
+        yield (0, a, k)
+        for b in range(a, k + 1):
+            yield (0, a, b, k)
+
+
 settings = [k for k in eol._eol_filter_stack_map if k != "exact"]
 for k in range(0, L + 1):
     for t in itertools.product(ALPH, repeat=k):
@@ -33,8 +44,20 @@ for k in range(0, L + 1):
                 n_f8 += 1 if f8 else 0
                 viol.append({"name": "bounded::C45.round_trip", "witness": "setting %s canonical content %r" % (key, c),
                              "observed": repr(back), "expected": repr(c)})
+            # content reaches the filters in chunks (file_iterator blocks, line lists): the result must not depend on where the cuts fall
+            if k <= LC:
+                whole_w, whole_r = b"".join(f.writer([c])), b"".join(f.reader([c]))
+                for cuts in chunkings(k):
+                    chunks = [c[a:b] for a, b in zip(cuts, cuts[1:])]
+                    n += 1
+                    gw, gr = b"".join(f.writer(chunks)), b"".join(f.reader(chunks))
+                    if (gw != whole_w or gr != whole_r) and n_chunk < 4:
+                        n_chunk += 1
+                        viol.append({"name": "bounded::C45.chunking_independent", "witness": "setting %s content %r in chunks %r" % (key, c, chunks),
+                                     "observed": repr((gw, gr)), "expected": repr((whole_w, whole_r))})
             if k == 3 and key == "crlf" and len(samples) < 3:
                 samples.append({"setting": key, "canonical": repr(c), "written": repr(b"".join(f.writer([c])))})
 print(json.dumps({"evaluations": n, "distinct_nontrivial": nontrivial, "exhaustive": True,
-                  "rule": "every byte string over {CR, LF, NUL, a} up to length %d x 6 eol settings; non-trivial = canonical text containing CR or LF" % L,
+                  "rule": "every byte string over {CR, LF, NUL, a} up to length %d x 6 eol settings; non-trivial = canonical text containing CR or LF; "
+                          "canonical strings up to length %d also in every 2- and 3-chunk cut (result must equal the single-chunk result)" % (L, LC),
                   "samples": samples, "violations": viol, "label": "bounded"}))
